@@ -776,7 +776,7 @@ func svgFamily() fw.Family {
 
 func families(tier string) []fw.Family {
 	fs := printerFamilies(tier)
-	fs = append(fs, mutationFamily(), svgFamily(), grammarFamily(tier))
+	fs = append(fs, mutationFamily(), svgFamily(), grammarFamily(tier), numberFamily())
 	fs = append(fs, stringFamilies(tier)...)
 	return fs
 }
